@@ -110,11 +110,25 @@ def _check_eq_fn(F, rep, rule, heap_types, name, negate):
                 seen.setdefault(var, []).append((p, 'diverges', True, ''))
             continue
         r = p.env.get('_0')
+        def word_cmp(r_):
+            a_ = b_ = None
+            if is_binop(r_, CMP) and r_[4] != 'f64':
+                a_, b_ = r_[2], r_[3]
+            elif r_ and r_[0] == 'call' and r_[1].endswith('ptr::eq') and len(r_[2]) == 2:
+                a_, b_ = r_[2]
+            return a_ is not None and ((is_param_word(a_, 1) and is_param_word(b_, 2)) or (is_param_word(a_, 2) and is_param_word(b_, 1)))
         if differ:
             differ_paths += 1
-            if r != FALSE or any(c[1].startswith(PAYLOAD) for c in p.calls):
+            # tags that differ make the words differ (the tag is part of the word): `false`, or the comparison of the two words
+            if not (r == FALSE or word_cmp(r)) or any(c[1].startswith(PAYLOAD) for c in p.calls):
                 differ_ok = False
             continue
+        pairs = {(x, y) for x in poss[1] for y in poss[2] if rel is not True or x == y}
+        # did the path find the two words identical (same box / same immediate)?
+        identical = False
+        for c in p.constraints:
+            if c[0][0] == 'switch' and truth(c) and word_cmp(c[0][1] if not negate else None):
+                identical = True
         # what is answered, and whether the tags established on the path allow that answer
         kind, ok, why = 'other', False, show(r)[:80]
         a = b = None
@@ -131,17 +145,24 @@ def _check_eq_fn(F, rep, rule, heap_types, name, negate):
             kind, ok, why = 'delegates', True, 'the negation of eq'
         elif r == FALSE:
             kind, ok, why = 'false', False, 'answers `different` although the tags are not known to differ'
+        elif r == TRUE and identical:
+            # the same word: the same immediate, or the same box - equal for every type but a float (NaN != NaN)
+            kind = 'identity'
+            ok = not any(x == y == 'Float' for x, y in pairs)
+            why = 'answers `equal` for identical words where both may be floats (a NaN is not equal to itself)'
         elif r == TRUE:
             kind, ok, why = 'true', False, 'answers `equal` without comparing anything'
         elif a is not None and ((is_param_word(a, 1) and is_param_word(b, 2)) or (is_param_word(a, 2) and is_param_word(b, 1))):
             kind = 'word'
             imm = (ALL - set(heap_types)) | {'Array'}
-            ok = poss[1] <= imm or poss[2] <= imm
-            why = 'words compared where the value may be %s' % sorted((poss[1] & poss[2]) - imm)
+            # right for every pair of tags the path allows: different tags (different words), or the same immediate type
+            badp = sorted({x for x, y in pairs if x == y and x not in imm})
+            ok = not badp
+            why = 'words compared where both values may be %s' % badp
         elif is_binop(r, CMP) and r[4] == 'f64':
             kind = 'Float'
             x, y = r[2], r[3]
-            ok = x[0] == 'call' and y[0] == 'call' and x[1].startswith('object::Object::as_f64') and y[1].startswith('object::Object::as_f64') \
+            ok = x[0] == 'call' and y[0] == 'call' and x[1].startswith(('object::Object::as_f64', 'object::Float::read')) and y[1].startswith(('object::Object::as_f64', 'object::Float::read')) \
                 and {1, 2} == {i for i in (1, 2) for z in (x, y) if is_param(deref(p.env, z[2][0]), i)} and poss[1] == poss[2] == {'Float'}
             why = 'float payloads compared where the tags may be %s / %s' % (sorted(poss[1]), sorted(poss[2]))
         elif r and ((r[0] == 'call' and 'PartialEq' in r[1] and r[1].endswith('ne') == negate) or (negate and r[0] == 'unop' and r[1] == 'Not' and r[2][0] == 'call' and 'PartialEq' in r[2][1] and r[2][1].endswith('eq'))):
@@ -152,6 +173,13 @@ def _check_eq_fn(F, rep, rule, heap_types, name, negate):
                 and {1, 2} == {i for i in (1, 2) for z in args if is_param(deref(p.env, z[2][0]), i)} and poss[1] == poss[2] == {'String'}
             why = 'string payloads compared where the tags may be %s / %s' % (sorted(poss[1]), sorted(poss[2]))
         known = poss[1] if len(poss[1]) == 1 else poss[2] if len(poss[2]) == 1 else None
+        if known is not None:
+            # the path answers for the type only if both values can have it
+            known = {v_ for v_ in known if (v_, v_) in pairs} or None
+            if known is None:
+                if not ok:
+                    unsupported.append('%s (tags %s / %s)' % (show(r)[:40], '|'.join(sorted(poss[1])), '|'.join(sorted(poss[2]))))
+                continue
         if known is None:
             # the path answers without knowing the type of either side
             if not ok:
@@ -181,10 +209,10 @@ def _check_eq_fn(F, rep, rule, heap_types, name, negate):
                 rep.good(rule, name, 'arm Array (unspecified)', 'returns %s' % show(r)[:80], fn.loc(), nontrivial=False)
                 continue
             if var in heap_types:
-                ok2 = ok and kind in (var, 'delegates')
+                ok2 = ok and kind in (var, 'delegates', 'identity')
                 rep.ob(ok2, rule, name, 'arm ' + var, 'heap payloads are compared by content: ' + (show(r) if ok2 else why), fn.loc())
             else:
-                ok2 = ok and kind in ('word', 'delegates')
+                ok2 = ok and kind in ('word', 'delegates', 'identity')
                 rep.ob(ok2, rule, name, 'arm ' + var, 'immediates are compared by word: ' + (show(r) if ok2 else why), fn.loc())
 
 
